@@ -12,13 +12,6 @@ import (
 
 // EncodeJSONFile 编码 JSON 文件
 func EncodeJSONFile(path string, obj interface{}) error {
-	f, err := os.OpenFile(path, os.O_CREATE|os.O_TRUNC|os.O_WRONLY, os.ModePerm)
-	if err != nil {
-		return err
-	}
-
-	defer f.Close()
-
 	var formatted bytes.Buffer
 	body, err := json.Marshal(obj)
 	if err != nil {
@@ -29,12 +22,28 @@ func EncodeJSONFile(path string, obj interface{}) error {
 		return err
 	}
 
-	if _, err := f.Write(formatted.Bytes()); err != nil {
-		return err
-	}
-	if err := f.Sync(); err != nil {
+	// 先把完整内容写入临时文件并落盘，再原子替换目标文件；
+	// 这样进程在任意时刻退出，目标文件要么是旧内容要么是新内容
+	tmp := path + ".tmp"
+	f, err := os.OpenFile(tmp, os.O_CREATE|os.O_TRUNC|os.O_WRONLY, os.ModePerm)
+	if err != nil {
 		return err
 	}
 
-	return nil
+	if _, err := f.Write(formatted.Bytes()); err != nil {
+		f.Close()
+		os.Remove(tmp)
+		return err
+	}
+	if err := f.Sync(); err != nil {
+		f.Close()
+		os.Remove(tmp)
+		return err
+	}
+	if err := f.Close(); err != nil {
+		os.Remove(tmp)
+		return err
+	}
+
+	return os.Rename(tmp, path)
 }
